@@ -64,6 +64,14 @@ var props = map[string]PropMeta{
 		Real: hubReal, Stub: append(append([]string{}, hubStub...), "adversary (real crypto/tls + gorilla client/server driven by the harness with generated certificates)"),
 		QuickS: 30, ThoroughS: 420, QuickWorkers: 8,
 	},
+	"C17": {
+		Level: "exploration",
+		Rule: "one run = a real MdnsManager behind a real hub and application; 1-20 resolver events over 1-4 services x 0-3 addresses drawn from {IPv4, IPv6 global, IPv6 link-local, duplicates}: add / add again / add with new addresses / remove (with the TXT of the add) / remove of an unknown service / invalid record (missing mandatory key, txtvers != 1, non-boolean register) / own SKI, back-to-back or 0..300 ms apart x seeded scheduling of the per-change report goroutines; oracle: after every resolver callback the manager's entries equal a reference set model (services, per service the union of usable addresses, no duplicates, no link-local); 30 quiet s later the last VisibleRemoteServicesUpdated list equals the model's final set (SKI, identifier, brand, model, type, serial, categories); " +
+			"non-trivial = all completed runs; distinct = distinct event histories",
+		Real:   []string{"mdns.MdnsManager (entry processing, snapshot reports)", "hub.Hub.ReportMdnsEntries", "api.MdnsEntry / RemoteService"},
+		Stub:   []string{"mDNS provider (the harness calls the resolver callback from one task, as both real providers do)", "application (records VisibleRemoteServicesUpdated)"},
+		QuickS: 25, ThoroughS: 360, QuickWorkers: 6,
+	},
 	"C05": {
 		Level: "exploration",
 		Rule: "one run = two real hubs (optionally a third bystander) with generated certificates on the simulated network and mDNS medium: registration before/after Start, start skew 0..30 s, network latency 0..900 ms (optionally asymmetric), mDNS propagation 0..6 s, the dial back-off drawn per attempt (minimum / maximum / any), then 0-4 disturbances from {DisconnectSKI by either side, unsafe close, reset of all connections, half-open link, mDNS outage} at drawn times, then 300 quiet simulated seconds x seeded interleaving of all hub, ship, ws, http and harness tasks; oracle: exactly one transport connection open at both ends, registered on both sides, completed on both sides, a fresh payload crosses in each direction; " +
